@@ -35,7 +35,7 @@ func TestMain(m *testing.M) {
 }
 
 // openFindings: defects of the code under test that are excluded from
-// generation by construction (none at present; see FINDINGS.md).
+// generation by construction (none at present).
 var openFindings = map[string]bool{}
 
 type payload struct {
@@ -123,9 +123,13 @@ func judge(p *program, pl plan, base *baseline, o *outcome, c *tengo.Compiled) (
 	if base != nil {
 		own = !isCtx && o.ErrText == base.ErrText
 	}
+	// strict: the probe held the run at an instruction until Abort (called
+	// only on the ctx.Done branch) was visible, so the run cannot have
+	// finished first; with an already-cancelled context the run is either
+	// held at instruction 0 or aborted before it
 	mustCtx := p.Infinite ||
-		(pl.Mode == "strict" && pl.Instant == "pre") ||
-		(pl.Mode == "strict" && o.Fired && o.AbortSeen)
+		(pl.Mode == "strict" && !o.StrictExpired && pl.Instant == "pre") ||
+		(pl.Mode == "strict" && !o.StrictExpired && o.Fired && o.AbortSeen)
 	mustOwn := !mustCtx && (o.CtxErr == nil || pl.Instant == "after" || pl.Instant == "none")
 	switch {
 	case mustCtx && !isCtx:
@@ -447,7 +451,10 @@ func drawK(t *rapid.T, p *program, T int64) int64 {
 		if rapid.Bool().Draw(t, "kSmall") {
 			return int64(rapid.IntRange(0, 40).Draw(t, "k"))
 		}
-		return int64(rapid.IntRange(0, 4000).Draw(t, "k"))
+		return int64(uniform(t, "k", 4001))
+	}
+	if rapid.Bool().Draw(t, "kUniform") {
+		return int64(uniform(t, "k", int(T)))
 	}
 	return int64(rapid.IntRange(0, int(T-1)).Draw(t, "k"))
 }
@@ -457,7 +464,7 @@ func pick(t *rapid.T, label string, names []string, weights []int) string {
 	for _, w := range weights {
 		tot += w
 	}
-	r := rapid.IntRange(0, tot-1).Draw(t, label)
+	r := uniform(t, label, tot)
 	for i, w := range weights {
 		if r < w {
 			return names[i]
@@ -469,9 +476,9 @@ func pick(t *rapid.T, label string, names []string, weights []int) string {
 
 func drawStrict(t *rapid.T, p *program, T int64) plan {
 	pl := plan{Mode: "strict", Ctx: "cancel"}
-	pl.Procs = []int{1, 2, 2, 4}[rapid.IntRange(0, 3).Draw(t, "procs")]
-	pl.LingerUS = []int{0, 0, 30, 200}[rapid.IntRange(0, 3).Draw(t, "linger")]
-	pl.Getter = rapid.IntRange(0, 2).Draw(t, "getter") == 0
+	pl.Procs = []int{1, 2, 2, 4}[uniform(t, "procs", 4)]
+	pl.LingerUS = []int{0, 0, 30, 200}[uniform(t, "linger", 4)]
+	pl.Getter = uniform(t, "getter", 3) == 0
 	var inst string
 	if p.Infinite {
 		inst = pick(t, "instant", []string{"pre", "k0", "k1", "mid"}, []int{1, 1, 1, 6})
@@ -498,9 +505,9 @@ func drawStrict(t *rapid.T, p *program, T int64) plan {
 
 func drawFree(t *rapid.T, p *program, T int64) plan {
 	pl := plan{Mode: "free"}
-	pl.Procs = []int{1, 2, 2, 16, 16}[rapid.IntRange(0, 4).Draw(t, "procs")]
-	pl.Getter = rapid.IntRange(0, 3).Draw(t, "getter") == 0
-	if rapid.IntRange(0, 9).Draw(t, "ctxKind") < 6 {
+	pl.Procs = []int{1, 2, 2, 16, 16}[uniform(t, "procs", 5)]
+	pl.Getter = uniform(t, "getter", 4) == 0
+	if uniform(t, "ctxKind", 10) < 6 {
 		pl.Ctx = "cancel"
 		pl.Yield = rapid.Bool().Draw(t, "yield")
 		var inst string
@@ -545,6 +552,9 @@ func prepare(t *rapid.T, test string, infinitePermille int) (*program, *baseline
 	a, err := compile(p)
 	if err != nil {
 		if strings.HasPrefix(p.Kind, "gen") {
+			if os.Getenv("C07_DEBUG") != "" {
+				fmt.Fprintf(os.Stderr, "DOES NOT COMPILE: %v\n%s\n", err, p.Source)
+			}
 			ev.Discard("does not compile")
 			return nil, nil, false
 		}
